@@ -135,6 +135,7 @@ void build_alphabet(int tier) {
     { Stmt s = mk(O_ASSIGN); s.v0 = VX; s.e = lin({{-1, VX}}); add(s, "x:=-x"); }
     { Stmt s = mk(S_UNREACH); add(s, "unreachable"); }
     { Stmt s = mk(O_ASSIGN); s.v0 = VY; s.e = lin({}, 0); add(s, "y:=0"); }
+    { Stmt s = mk(O_SELECT); s.v0 = VX; s.c = cst({{1, VY}}, 0, C_LEQ); s.e = lin({}, 0); s.e2 = lin({{1, VX}}, 1); add(s, "x:=ite(y<=0,0,x+1)"); }
   }
   if (WITH_BOOL) {
     { Stmt s = mk(O_BOOL_ASSIGN_CST); s.v0 = VB1; s.c = cst({{1, VX}}, 0, C_LEQ); add(s, "b1:=(x<=0)"); }
@@ -651,7 +652,8 @@ void enumerate(int n, int nalpha, uint64_t &caseno, const std::string &only_dom,
       run_program(id, only_dom);
       if (second_stmt) {
         // family F2: block 0 (and the last block) get a second statement from the core alphabet
-        for (int s2 = 1; s2 < std::min(nalpha, 9); s2++) {
+        const bool full = vp::args().opt.count("second") > 0; // --second 1: the second statement ranges over the whole alphabet
+        for (int s2 = 1; s2 < (full ? nalpha : std::min(nalpha, 9)); s2++) {
           ProgId id2 = id;
           id2.st2.assign(n, 0);
           id2.st2[n > 1 ? 1 : 0] = s2;
@@ -723,7 +725,7 @@ int main(int argc, char **argv) {
   uint64_t caseno = 0;
   int nalpha = (int)ALPHA.size();
   int maxn = vp::args().opt.count("maxn") ? atoi(vp::args().opt["maxn"].c_str()) : 3;
-  for (int n = 1; n <= maxn; n++) enumerate(n, nalpha, caseno, "", (n == 2 && tier == 0) || (PROP == "C11" && n <= 2 && vp::args().opt.count("second")));
+  for (int n = 1; n <= maxn; n++) enumerate(n, nalpha, caseno, "", (n == 2 && tier == 0) || (n <= 2 && vp::args().opt.count("second")));
 
   vp::stat("programs", n_programs);
   vp::stat("states", n_states + n_programs);
